@@ -400,7 +400,7 @@ func checkScanRoundTrip(t ev.TB, c scanRTCase) (footprints int) {
 	footprints = len(fontscan.VerifFlatten(r.index))
 
 	var (
-		buf      bytes.Buffer
+		buf       bytes.Buffer
 		got, got2 fontscan.VerifIndex
 	)
 	if p, st := call(func() {
